@@ -114,6 +114,13 @@ var renderSchemes = []namedScheme{
 	{"cmyk", barcode.ColorScheme{Model: color.CMYKModel, Background: color.CMYK{0, 0, 0, 10}, Foreground: color.CMYK{90, 30, 0, 60}}},
 	{"same luminance", barcode.ColorScheme{Model: color.RGBAModel, Background: color.RGBA{0, 128, 0, 255}, Foreground: color.RGBA{255, 3, 0, 255}}},
 	{"inverted", barcode.ColorScheme{Model: color.Gray16Model, Background: color.Black, Foreground: color.White}},
+	// pairs of schemes whose colours are different values with the same RGBA64 rendering (a key built from
+	// converted colours, or a comparison through RGBA(), confuses them): the second of each pair follows the first
+	{"cmyk black k=255 (a)", barcode.ColorScheme{Model: color.CMYKModel, Background: color.CMYK{0, 0, 0, 0}, Foreground: color.CMYK{0, 0, 0, 255}}},
+	{"cmyk black k=255 (b)", barcode.ColorScheme{Model: color.CMYKModel, Background: color.CMYK{0, 0, 0, 0}, Foreground: color.CMYK{10, 20, 30, 255}}},
+	{"nrgba alpha 0 (a)", barcode.ColorScheme{Model: color.NRGBAModel, Background: color.NRGBA{255, 0, 0, 0}, Foreground: color.NRGBA{0, 0, 0, 255}}},
+	{"nrgba alpha 0 (b)", barcode.ColorScheme{Model: color.NRGBAModel, Background: color.NRGBA{0, 255, 0, 0}, Foreground: color.NRGBA{0, 0, 0, 255}}},
+	{"gray 13 on 200 as Gray16 values", barcode.ColorScheme{Model: color.GrayModel, Background: color.Gray16{200 * 257}, Foreground: color.Gray16{13 * 257}}},
 	{"colours foreign to the model", barcode.ColorScheme{Model: color.GrayModel, Background: color.RGBA{1, 2, 3, 255}, Foreground: color.NRGBA{200, 100, 50, 255}}},
 }
 
@@ -332,6 +339,6 @@ func c11Body(c *core.Ctx) {
 func init() {
 	Evaluators["render"] = evalRender
 	register(&Check{ID: "C11", Engine: "E", Body: c11Body,
-		Rule:        "for every encoder family, flag combination and representative content of every symbol size: the plain symbol is validated by the family's reference decoder (prescribed size, Metadata, Content, black on white), then each of 12 colour schemes is rendered through the WithColor variant and every pixel is compared (identity with foreground/background, module matrix identical to the plain symbol), plus ColorModel, ColorScheme, Metadata, Content. A state is a distinct (family, symbol size).",
+		Rule:        "for every encoder family, flag combination and representative content of every symbol size: the plain symbol is validated by the family's reference decoder (prescribed size, Metadata, Content, black on white), then each of 17 colour schemes (five of them forming pairs of different colour values with the same RGBA64 rendering) is rendered through the WithColor variant and every pixel is compared (identity with foreground/background, module matrix identical to the plain symbol), plus ColorModel, ColorScheme, Metadata, Content. A state is a distinct (family, symbol size).",
 		Assumptions: []string{"contents are representatives per symbol size; the renderers do not look at the content when choosing colours", "colour identity is Go interface equality of color.Color values"}})
 }
